@@ -329,6 +329,15 @@ def step (line : String) : String :=
     (match parseTab tab, i.toNat? with
     | some l, some i => okOrPanic ((Dyn.topDecomposition l i).map showDecomp)
     | _, _ => "bad-op")
+  | ["dflags", _, tab, i] =>
+    (match parseTab tab, i.toNat? with
+    | some l, some i => okOrPanic ((Dyn.topDecomposition l i).map (fun d =>
+        s!"{showDecomp d} {showBool d.isTrivial} {showBool d.isAndType} {showBool d.isXorType} {showBool d.isSimpleGate}"))
+    | _, _ => "bad-op")
+  | ["linfo", _, tab] =>
+    (match parseTab tab with
+    | some l => s!"ok {l.n} {Dyn.numBits l} {Dyn.numBlocks l}"
+    | none => "bad-op")
   | ["posunate", _, tab, i] =>
     (match parseTab tab, i.toNat? with
     | some l, some i => okOrPanic ((Dyn.isPosUnate l i).map showBool)
@@ -409,6 +418,29 @@ def step (line : String) : String :=
     | some p, some q => "ok " ++ showCube (Cube.fromMask (BitVec.ofNat 32 p) (BitVec.ofNat 32 q)) | _, _ => "bad-op")
   | ["cube", "fromvars", p, q] => (match parseNats p, parseNats q with
     | some p, some q => "ok " ++ showCube (Cube.fromVars p q) | _, _ => "bad-op")
+  | ["cube", "isconstant", c] => (match parseCube c with
+    | some c => "ok " ++ showBool c.isConstant | _ => "bad-op")
+  | ["fctor", ty, name, n, v] => (match n.toNat?, v.toNat? with
+    | some n, some v =>
+      (match ty, name with
+      | "ecube", "one" => "ok " ++ showEcube Ecube.one
+      | "ecube", "zero" => "ok " ++ showEcube Ecube.zero
+      | "ecube", "nthvar" => "ok " ++ showEcube (Ecube.nthVar v)
+      | "ecube", "nthvarinv" => "ok " ++ showEcube (Ecube.nthVarInv v)
+      | "sop", "zero" => "ok " ++ showCubes (Sop.zero n).cubes
+      | "sop", "one" => "ok " ++ showCubes (Sop.one n).cubes
+      | "sop", "nthvar" => "ok " ++ showCubes (Sop.nthVar n v).cubes
+      | "sop", "nthvarinv" => "ok " ++ showCubes (Sop.nthVarInv n v).cubes
+      | "esop", "zero" => "ok " ++ showCubes (Esop.zero n).cubes
+      | "esop", "one" => "ok " ++ showCubes (Esop.one n).cubes
+      | "esop", "nthvar" => "ok " ++ showCubes (Esop.nthVar n v).cubes
+      | "esop", "nthvarinv" => "ok " ++ showCubes (Esop.nthVarInv n v).cubes
+      | "soes", "zero" => "ok " ++ showEcubes (Soes.zero n).cubes
+      | "soes", "one" => "ok " ++ showEcubes (Soes.one n).cubes
+      | "soes", "nthvar" => "ok " ++ showEcubes (Soes.nthVar n v).cubes
+      | "soes", "nthvarinv" => "ok " ++ showEcubes (Soes.nthVarInv n v).cubes
+      | _, _ => "bad-op")
+    | _, _ => "bad-op")
   | ["cube", "info", c] => (match parseCube c with
     | some c => s!"ok {c.numLits} {c.numGates} {showBool c.isZero} {showBool c.isOne} {showNats c.posVars} {showNats c.negVars}"
     | _ => "bad-op")
